@@ -64,7 +64,8 @@ def run(ctx):
     cli = ctx.build_cli()
     ctx.run_vh(["c09"], dict(mode="deletion", depth=2, batch=1, sequences=[], canary="valid"), timeout=1200)      # creates the cached keys file
     V, U, M = dict(method="POST", body="valid"), dict(method="POST", body="unsat"), dict(method="POST", body="malformed")
-    scen = [dict(k=0, hold="", holdMs=0), dict(k=2, hold="prove.decoded", holdMs=500), dict(k=1, hold="prove.proved", holdMs=400, kinds=[U]), dict(k=2, hold="", holdMs=0, after=True)]
+    scen = [dict(k=0, hold="", holdMs=0), dict(k=2, hold="prove.decoded", holdMs=500), dict(k=1, hold="prove.proved", holdMs=400, kinds=[U]), dict(k=2, hold="", holdMs=0, after=True),
+            dict(k=2, hold="prove.decoded", holdMs=600, signals=3), dict(k=1, hold="prove.proved", holdMs=500, kinds=[V], signals=2)]
     if not ctx.quick:
         for hook in ("prove.enter", "prove.read", "prove.decoded", "prove.proved"):
             for k in (1, 2, 3):
